@@ -22,7 +22,7 @@ from mc.report import Report
 
 LEVEL = "model_checking"
 RULE = ("BFS over action sequences {construct a context manager now and enter it later (once per history), enter one of 4 contexts (auto_checkpoint(p1,every=1), auto_checkpoint(p2,every=2,"
-        "save_config=False), enable_pool(close_pool=True), enable_pool(close_pool=False, parallelize_prior=True), enable_pool(one pool object shared by all such contexts, close_pool=False)), leave the "
+        "save_config=False), enable_pool(close_pool=True), enable_pool(close_pool=False, parallelize_prior=True), enable_pool(one pool object shared by all such contexts, close_pool=False)), a refused entry (parallelize_prior=True with a prior that takes no map function), leave the "
         "innermost context normally, sample inside the body (real importance run), raise Exception-subclass, raise "
         "KeyboardInterrupt} with nesting depth <=3 (quick) / 4 (thorough) and <=5/7 actions; abstract state = (context stack, "
         "likelihood/prior wrapping depth, checkpoint-defaults content or ABSENT, per-pool close/join counters, sampled flag, "
@@ -227,6 +227,34 @@ class World:
         self.same(self.pre, f"unwind-by-{kind}")
         self.unwound = True
 
+    def failed_entry(self):
+        """enable_pool(parallelize_prior=True) with a prior that takes no map function: the attempt is refused (at
+        construction or at entry) and leaves the instance exactly as it was."""
+        saved_prior = self.a.log_prior
+
+        def plain_prior(samples):
+            return np.zeros(len(samples.x))
+
+        self.a.log_prior = plain_prior
+        snap = self.snapshot()
+        pool = FakePool("refused")
+        refused = False
+        try:
+            cm = self.a.enable_pool(pool, close_pool=False, parallelize_prior=True)
+            cm.__enter__()
+        except ValueError:
+            refused = True
+        if not refused:
+            self.problems.append(("pool-context-accepted-a-prior-without-map_fn", None))
+        else:
+            self.same(snap, "refused-entry-of-a-pool-context")
+            if pool.closed or pool.joined:
+                self.problems.append(("pool-closed-although-not-asked/refused-entry", (pool.closed, pool.joined)))
+        self.a.log_prior = saved_prior
+        self.tried_refused = True
+
+    tried_refused = False
+
     def sample(self):
         try:
             self.a.sample_posterior(n_samples=4, sampler="importance")
@@ -285,6 +313,8 @@ def build_world(hist, tmpdir):
             w.raise_(a[1])
         elif a[0] == "sample":
             w.sample()
+        elif a[0] == "failed-entry":
+            w.failed_entry()
     w.finish_checks()
     return w
 
@@ -309,6 +339,8 @@ def run_bfs(arg):
                     acts.append(("enter-prepared",))
             if w.prepared is None and not w.prepared_once:
                 acts += [("prepare", c) for c in ("P1", "A1")]
+            if len(w.entered) <= 1 and not any(e["ctx"] == "P2" for e in w.entered):
+                acts.append(("failed-entry",))  # leaves the state as it is (a self-loop of the search) unless something is not put back
             if w.entered:
                 acts.append(("exit",))
                 acts.append(("raise", "Exception"))
